@@ -249,7 +249,12 @@ fn conform(len: usize) -> Result<(u64, u64), String> {
 // ---------------------------------------------------------------------------------------------
 
 fn child(args: &[&str], timeout_s: u64) -> (Option<i32>, String, bool) {
-    let exe = std::env::current_exe().unwrap();
+    // (the path is resolved once; a rebuilt binary at the same path is fine)
+    static EXE: std::sync::OnceLock<std::path::PathBuf> = std::sync::OnceLock::new();
+    let exe = EXE.get_or_init(|| {
+        let p = std::env::current_exe().unwrap_or_else(|_| "/verif/.target-loom/release/loom-fc".into());
+        if p.exists() { p } else { "/verif/.target-loom/release/loom-fc".into() }
+    });
     let mut c = std::process::Command::new(exe).args(args).stdout(std::process::Stdio::piped()).stderr(std::process::Stdio::piped()).spawn().unwrap();
     let start = std::time::Instant::now();
     loop {
@@ -288,7 +293,7 @@ fn check(tier: &str) -> i32 {
     let thorough = tier == "thorough";
     // (model, preemption bound, wall cap s)
     let plan: Vec<(&str, usize, u64)> = if thorough {
-        vec![("A1", 6, 900), ("A2", 4, 1500), ("C2", 5, 900), ("F1", 6, 900), ("B-bytes-stay-full", 6, 600), ("B-msgs-stay-full", 6, 600), ("G3", 3, 1500)]
+        vec![("A1", 6, 900), ("A2", 3, 1500), ("C2", 5, 900), ("F1", 6, 900), ("B-bytes-stay-full", 6, 600), ("B-msgs-stay-full", 6, 600), ("G3", 3, 1500)]
     } else {
         vec![("A1", 3, 120), ("A2", 2, 120), ("C2", 3, 120), ("F1", 3, 120), ("B-bytes-stay-full", 3, 120), ("B-msgs-stay-full", 3, 120), ("G3", 2, 120)]
     };
